@@ -360,6 +360,9 @@ def run(ck: core.Check):
             if r["sample"] and len(ck.samples) < 2:
                 ck.samples.append(r["sample"])
             for b in r["bad"]:
+                if len(ck.violations) >= 2:
+                    ck.violation(b["fail"]["what"] + " (not shrunk)", {"document": b["doc"], "config": {"format": b["config"][0], "strip_uuids": b["config"][1], "numbered": b["config"][2]}, "detail": b["fail"], "pad": "#" * 4000})
+                    continue
                 doc, det = shrink_doc(drv, b["doc"], b["config"], workdir)
                 det = det or b["fail"]
                 ck.violation(det["what"], {"document": doc, "config": {"format": b["config"][0], "strip_uuids": b["config"][1], "numbered": b["config"][2]},
